@@ -136,6 +136,20 @@ impl Scheduler for SimScheduler {
         let cur_runnable = cur.map(|c| ids.contains(&c)).unwrap_or(false);
         let step = self.step;
         self.step += 1;
+        // a task that sleeps / yields gives way: some OTHER runnable task runs next (replay
+        // lists were recorded under the same rule, so they stay valid)
+        let others: Vec<usize> = ids.iter().copied().filter(|t| Some(*t) != cur).collect();
+        let must_give_way = _is_yielding && cur_runnable && !others.is_empty();
+        if must_give_way {
+            if let SchedSpec::Seeded { strategy: Strategy::Pct { .. }, .. } = &self.spec {
+                if let Some(c) = cur {
+                    let _ = self.prio_of(c);
+                    self.prio[c] = (1u64 << 40) - step as u64;
+                }
+            }
+            ids = others;
+        }
+        let cur_runnable = cur_runnable && !must_give_way;
         let choice: usize = match &self.spec {
             SchedSpec::Replay { decisions } => {
                 let want = decisions.get(step as usize).map(|d| *d as usize);
